@@ -32,7 +32,7 @@ EVAL_COUNTER = 'items_checked'   # a case is one result item (one closest-genome
 AVX512 = 'AVX512F AVX512CD AVX512_SKX AVX512_CLX AVX512_CNL AVX512_ICL'
 DISPATCH = ['', AVX512, AVX512 + ' AVX2 FMA3']
 
-RULE = ('runs generated from the seed in groups of three (same choice sequence, NumPy dispatch setting none-disabled / AVX-512 disabled / AVX-512+AVX2+FMA3 disabled): '
+RULE = ('runs generated from the seed in groups of five (same choice sequence; interpreter environment: NumPy dispatch none-disabled / AVX-512 disabled / AVX-512+AVX2+FMA3 disabled / NPY_PROMOTION_STATE=weak / PYTHONOPTIMIZE=1): '
         'a database of 3-200 references built at signature level with identical, nested and equidistant members, 1-4 queries, then 4-10 executions of query() with drawn '
         'report_closest 1..n+3, chunk size, OpenMP team size and hand-out; a tenth of the runs also go through the CLI (-f json and -f csv). A case is '
         '(tie structure of the distance row, N, dispatch setting, team size, chunk regime); non-trivial = the row has a tie inside or at the edge of the reported prefix. Run groups of five share a choice sequence (three dispatch settings, NPY_PROMOTION_STATE=weak, PYTHONOPTIMIZE=1). Further drawn dimensions: one database object reused across executions with in-memory threshold edits, one QueryParams object reused across a small and the main database, references at distance exactly j/10.')
